@@ -16,9 +16,9 @@
    dynamic  (c)  not(@a) / boolean(@a) on a candidate whose attribute a is ""     -> hazard
             (d)  @a != 's' (s not empty) on a candidate without a                 -> eq_hazard
             (e)  @a = '' on a candidate without a;  @a = @b, @a != @b with one of them missing      -> eq_hazard
-            (g)  an attribute *value* evaluated on a candidate that is not a tag node (text, comment, PI, document)
-            (h)  the document node: as context of a non-downward axis, as a candidate of text() / comment() /
-                 processing-instruction(..) tests (it passes every type test), or in the result
+            [(g) an attribute value on a candidate that is not a tag node, and (h) the document node, were excluded until
+             /repo commits c8b3442 and c9f24a8; they are inside in_subset now.  What remains of (g) is (d)/(e): such a
+             candidate has no attributes, so @a != 's' and @a = '' are the missing-attribute cases]
             (j)  a prefixed attribute whose namespace is the candidate's in-scope default namespace *)
 From Delb.Base Require Import PyStr.
 From Delb.Tree Require Import ATree ITree.
@@ -80,12 +80,13 @@ Definition attr_j (m : nsmap) (p : option str) (c : nd) : bool :=
               end
   | None => false
   end.
+Definition attr_of (m : nsmap) (p : option str) (l : str) (c : nd) : option str :=
+  if is_tagnode c then get_attr (match p with Some q => opt_default [] (ns_get m q) | None => [] end) l (tag_attrs c) else None.
+(* a candidate that is not a tag node has no attributes *)
 Definition attr_missing (m : nsmap) (p : option str) (l : str) (c : nd) : bool :=
-  match get_attr (match p with Some q => opt_default [] (ns_get m q) | None => [] end) l (tag_attrs c) with
-  | Some _ => false | None => true end.
+  match attr_of m p l c with Some _ => false | None => true end.
 Definition attr_empty (m : nsmap) (p : option str) (l : str) (c : nd) : bool :=
-  match get_attr (match p with Some q => opt_default [] (ns_get m q) | None => [] end) l (tag_attrs c) with
-  | Some v => null v | None => false end.
+  match attr_of m p l c with Some v => null v | None => false end.
 (* (d), (e) *)
 Definition eq_hazard (m : nsmap) (o : binop) (l r : expr) (c : nd) : bool :=
   match l, r with
@@ -98,7 +99,7 @@ Definition eq_hazard (m : nsmap) (o : binop) (l r : expr) (c : nd) : bool :=
 Fixpoint hazard (m : nsmap) (e : expr) (c : nd) : bool :=
   match e with
   | AnyValue _ => false
-  | AttributeValue p _ => negb (is_tagnode c) || attr_j m p c                  (* (g), (j) *)
+  | AttributeValue p _ => attr_j m p c                                         (* (j) *)
   | HasAttribute p _ => attr_j m p c
   | BooleanOperator o l r =>
       hazard m l c || hazard m r c || match o with OpEq | OpNe => eq_hazard m o l r c | _ => false end
@@ -121,9 +122,7 @@ Definition step_ok (D : itree) (m : nsmap) (s : step) (n : nd) : bool :=
   let '(LocationStep a t ps) := s in
   match x_axis true a, x_test true m t with
   | Some a', Some t' =>
-      (negb (is_doc n) || downward a)
-      && negb (existsb is_doc (r_axis D a' n) && doc_passes_wrongly t)
-      && forallb (pred_ok m) ps
+      forallb (pred_ok m) ps
       && forallb (fun c => forallb (fun p => negb (hazard m p c)) ps) (filter (r_test t') (r_axis D a' n))
   | _, _ => false
   end.
@@ -142,6 +141,6 @@ Definition path_ok (D : itree) (m : nsmap) (p : path) (ctx : nd) : bool :=
 Definition in_subset (D : itree) (m : nsmap) (e : xpath_expr) (ctx : nd) : bool :=
   forallb (fun p => path_ok D m p ctx) e
   && match deviate m e with
-     | Some re => match ref_eval D m re ctx with Some l => negb (existsb is_doc l) | None => false end
+     | Some re => match ref_eval D m re ctx with Some _ => true | None => false end
      | None => false
      end.
